@@ -195,7 +195,7 @@ def gen_bundle(rng, tier, solver=None):
     hi = 20000 if tier == "thorough" else 3000
     c["max_evals"] = rng.choice([100, rng.range(100, 600), rng.range(100, hi), rng.range(100, hi)])
     # the quadratic sub-problem costs ~ size^3 per evaluation: keep one run below a second
-    c["max_evals"] = max(100, min(c["max_evals"], (40000 if tier == "quick" else 100000) // c["max_size"]))
+    c["max_evals"] = max(100, min(c["max_evals"], (40000 if tier == "quick" else 60000) // c["max_size"]))
     c.update(DEFAULTS)
     if rng.chance(0.6):
         a = rng.uniform(0.02, 0.9); b = rng.uniform(a + 0.02, 0.98)
@@ -229,7 +229,7 @@ def gen(rng, tier):
     cp = os.path.join(vlib.VERIF, "corpus", "C03", "ops.txt")
     if os.path.exists(cp):
         ops += [l.strip() for l in open(cp) if l.strip() and not l.startswith("#")]
-    nb, ne = (450, 225) if tier == "quick" else (900, 450)
+    nb, ne = (450, 225) if tier == "quick" else (600, 300)
     for solver in ["rqb", "fpba1", "fpba2"]:
         for _ in range(nb // 3):
             ops.append(gen_bundle(rng, tier, solver))
